@@ -25,3 +25,12 @@ func (c *Controller) VerifTrackLink(ctx context.Context, lnk link.MountedLink) e
 	}
 	return tl.trackLink(ctx)
 }
+
+// VerifLinkTable reports the number of links waiting to be tracked (incLinks) and the number
+// of link trackers that have been started and have not returned yet (links).
+func (c *Controller) VerifLinkTable() (inc, tracked int) {
+	c.bcast.HoldLock(func(broadcast func(), getWaitCh func() <-chan struct{}) {
+		inc, tracked = len(c.incLinks), len(c.links)
+	})
+	return inc, tracked
+}
